@@ -129,7 +129,7 @@ class CallMixin:
             vv = self.as_vec(st, v)
             return Vec(vv.n, lambda i: self.transcendental(st, name, vv.at(i), ln), "float")
         v = self.to_float(v)
-        if name in ("log", "sqrt") and self.contract.div_side and not self.mode.fp:
+        if name in ("log", "sqrt") and self.contract.div_side and not self.mode.fp and not self._suppress_side:
             self.ob(st, f"L{ln}:{name}-domain", "side", v > 0 if name == "log" else v >= 0, ln)
         return self.ufun("u_" + name)(v)
 
@@ -376,6 +376,36 @@ class CallMixin:
             if d != float("inf"):
                 raise Unsupported("nextafter towards anything but +inf")
             return self.nextafter_up(st, x)
+        if fn in ("min", "max"):
+            return self.method(st, ev(args[0]), fn, [], ln, node)
+        if fn == "concatenate":
+            parts = args[0]
+            if not isinstance(parts, (ast.List, ast.Tuple)):
+                raise Unsupported("np.concatenate of a non-literal sequence")
+            vecs = []
+            for pnode in parts.elts:
+                v = ev(pnode)
+                vecs.append(self.as_vec(st, v))
+            kind_ = "float" if any(v.kind == "float" for v in vecs) else vecs[0].kind
+            offs = [0]
+            for v in vecs:
+                offs.append(self.simp(offs[-1] + v.n) if (is_z3(offs[-1]) or is_z3(v.n)) else offs[-1] + v.n)
+
+            def at(i, vecs=vecs, offs=offs):
+                e = None
+                for k in range(len(vecs) - 1, -1, -1):
+                    val = self.to_kind(vecs[k].at(self.simp(i - offs[k]) if is_z3(i) or is_z3(offs[k]) else i - offs[k]), kind_)
+                    if e is None:
+                        e = val
+                    else:
+                        lim = offs[k + 1]
+                        cond = (i < lim) if (is_z3(i) or is_z3(lim)) else None
+                        if cond is None:
+                            e = val if i < lim else e
+                        else:
+                            e = z3.If(cond, val, e)
+                return e
+            return self.materialize(st, Vec(offs[-1], at, kind_), "concat")
         if fn == "ascontiguousarray":
             return ev(args[0])
         raise Unsupported(f"np.{fn} (line {ln})")
